@@ -108,6 +108,13 @@ func runC06(c *core.Ctx) {
 						c.Violate("panic/plain"+v, "plain rendering panicked", fmt.Sprintf("%s\nstage %s: %v", t, st.name, p))
 						continue
 					}
+					if strings.ContainsAny(plain, "‹›") {
+						// the error's own text carries marker runes at this process (an opaque
+						// barrier shows its redactable wire message: recorded finding of C04);
+						// the congruence clause is about marker-free inputs
+						c.Count("congruence-skipped(text-has-markers)", 1)
+						continue
+					}
 					c.Count("congruence-comparisons", 1)
 					if got := rs.StripMarkers(); got != plain {
 						c.Violate("congruence/"+v+"/"+st.name, "stripping the markers of the redactable rendering does not give the plain rendering",
